@@ -392,7 +392,7 @@ fn mol_str(ke: f64, hit: u64, min: u64, best: &(u64, f64)) -> String {
 }
 
 /// One well-formed reaction case; `mode` steers the energy balance (0 accept, 1 reject, 2 buffer-assisted, 3 random).
-fn reaction_case(g: &mut Gen, kind: &str, mode: u64, twins: bool) -> String {
+fn reaction_case(g: &mut Gen, kind: &str, mode: u64, twins: bool, unmoved: bool) -> String {
     let n = g.rng.range(if kind == "inter" || kind == "synth" { 2 } else { 1 }, 6) as usize;
     let mut pop: Vec<(u64, f64)> = (0..n).map(|_| { let o = g.obj(); g.fresh(o) }).collect();
     let mut kes: Vec<f64> = (0..n).map(|_| g.ke()).collect();
@@ -414,13 +414,17 @@ fn reaction_case(g: &mut Gen, kind: &str, mode: u64, twins: bool) -> String {
         2 => { buffer = 10.0 + g.rng.unit() * 100.0; tot + g.rng.unit() * buffer * 0.5 }
         _ => tot + (g.rng.unit() - 0.5) * 20.0,
     };
-    let prods: Vec<(u64, f64)> = if two_p {
+    // an on-wall collision that did not move the molecule: the product IS the reactant
+    let prods: Vec<(u64, f64)> = if unmoved && kind == "onwall" {
+        if kes[i] == 0.0 { kes[i] = 1.0 + g.rng.unit() * 10.0; }
+        vec![pop[i]]
+    } else if two_p {
         let a = target * g.rng.unit();
         vec![g.fresh(a), g.fresh(target - a)]
     } else {
         vec![g.fresh(target)]
     };
-    if g.rng.chance(1, 10) { kes[i] = 0.0; }
+    if !(unmoved && kind == "onwall") && g.rng.chance(1, 10) { kes[i] = 0.0; }
     let reactants: Vec<(u64, f64)> = if two_r { vec![pop[i], pop[j]] } else { vec![pop[i]] };
     let mols: Vec<String> = (0..n).map(|k| {
         let hit = g.rng.below(8);
@@ -513,7 +517,7 @@ fn main() {
         for k in 0..reps {
             let mode = k % 4;
             let twins = (kind == "inter" || kind == "synth") && k % 7 == 0;
-            emit(kind, reaction_case(&mut g, kind, mode, twins));
+            emit(kind, reaction_case(&mut g, kind, mode, twins, k % 9 == 4));
         }
         for which in 0..12 {
             emit(&format!("{kind}-malformed"), malformed_case(&mut g, kind, which));
